@@ -93,6 +93,27 @@ def same_string_cases(seed, salt, n_bgs=6, cfgs=None):
     return cases
 
 
+def lattice_cases(seed, salt, kind, cfgs_per_pair=1):
+    """Enumerated sub-lattices (complete within themselves): 'websafe' = all 216 x 216 web-safe pairs; 'grey' = every third
+    grey level squared. One or more configurations per pair, rotating deterministically."""
+    rnd = G.rng("lattice", seed, salt, kind)
+    if kind == "websafe":
+        lv = [0, 51, 102, 153, 204, 255]
+        cols = [(r, g, b) for r in lv for g in lv for b in lv]
+    else:
+        cols = [(v, v, v) for v in range(0, 256, 3)]
+    cases = []
+    k = 0
+    for t in cols:
+        for b in cols:
+            cfgs = [CONFIGS[(k + j * 5) % len(CONFIGS)] for j in range(cfgs_per_pair)] if cfgs_per_pair < len(CONFIGS) else rnd.sample(CONFIGS, len(CONFIGS))
+            k += 1
+            tk = ["tuple", "hex6", "rgb"][k % 3]
+            cases.append({"cls": "lattice-" + kind, "t": list(t), "b": list(b), "tk": tk, "text": SP.jsonable(SP.spell(t, tk)), "bk": "tuple", "bg": list(b),
+                          "cfgs": [list(c) for c in cfgs]})
+    return cases
+
+
 def chunk(cases, nshards):
     nshards = max(1, min(nshards, len(cases)))
     return [cases[i::nshards] for i in range(nshards)]
